@@ -131,15 +131,21 @@ class Report:
             print(f"KNOWN-FINDING: property={self.prop} {k['what']} [key={key}; {len(vs)} case(s) this run, e.g. {vs[0]['key']}]")
         REPLAYS.mkdir(exist_ok=True)
         seen = set()
+        printed = 0
         for v in unknown:
             if v["key"] in seen:
                 continue
             seen.add(v["key"])
+            printed += 1
+            if printed > 40:      # one replay file and one line per distinct key, at most 40 per run
+                continue
             h = hashlib.sha1(json.dumps(v, sort_keys=True).encode()).hexdigest()[:10]
             path = REPLAYS / f"{self.prop}-{h}.json"
             with open(path, "w") as f:
                 json.dump({"property": self.prop, "tier": self.tier, "seed": self.seed, **v}, f, indent=1)
             print(f"VIOLATION property={self.prop} replay={path}  # {v['key']}: {v['what'][:300]}")
+        if printed > 40:
+            print(f"[{self.prop}] ... and {printed - 40} more distinct violations (keys in the evidence file)")
         cov = dict(self.cov)
         cov.setdefault("evaluations", self.evaluations)
         cov.setdefault("distinct_nontrivial", len(self._nontrivial))
